@@ -989,8 +989,17 @@ def explore_cli(chk, r, n, pool_cases, procs=4):
                 exc = re.findall(r"^(\w+(?:\.\w+)*(?:Error|Exception))\b", stderr, re.M)
                 repo = os.path.realpath(common.REPO) + os.sep
                 site = [(os.path.basename(f), fn) for f, fn in m if os.path.realpath(f).startswith(repo)]
-                key = "crash:%s:%s:%s" % (site[-1][0] if site else "?", site[-1][1] if site else "?",
-                                          exc[-1].split(".")[-1] if exc else "?")
+                exc_name = exc[-1].split(".")[-1] if exc else "?"
+                where = site[-1] if site else ("?", "?")
+                if exc_name == "RecursionError" and site:
+                    # same rule as crash_key(): the innermost frame is arbitrary, name the emboss function
+                    # that recurses most among the last 400 frames
+                    count = {}
+                    for k in site[-400:]:
+                        count[k] = count.get(k, 0) + 1
+                    top = max(count.values())
+                    where = sorted(k for k, v in count.items() if v == top)[0]
+                key = "crash:%s:%s:%s" % (where[0], where[1], exc_name)
                 problem = (key, "%s printed a traceback (exit %s): %s" % (name, rc, stderr[-600:]))
             elif rc not in (0, 1):
                 problem = ("cli-exit-status:" + name, "exit status %r, stderr %s" % (rc, stderr[-300:]))
